@@ -253,6 +253,32 @@ def run_walk(case, bct, REC):
                     REC.check(PROP, 'pagerank_centrality', 'fixed_point', res <= 1e-10, dict(det, d=d, falff=fal, got=r, residual=res))
         if n <= 12:
             vector_forms_agree(REC, PROP, 'pagerank_centrality', bct.pagerank_centrality, (W, .85), {'falff': rs.rand(n) + 0.05}, 'falff')
+        if n <= 20:
+            # the same network with nodes that nobody links from (isolated nodes; for directed input also nodes
+            # without outgoing links): A D^-1 has zero columns there, the walk loses mass, and the stated equation has
+            # no solution of unit sum -- what is still demanded is what the statement says about the result itself:
+            # positive, summing to one (the equation itself is not judged there)
+            rs2 = np.random.RandomState(case['ws'] + 5)
+            for extra in (1, 3):
+                m = n + extra
+                Wd = np.zeros((m, m))
+                pos = np.sort(rs2.choice(m, n, replace=False))
+                Wd[np.ix_(pos, pos)] = W
+                if directed:
+                    v = int(pos[rs2.randint(n)])
+                    Wd[:, v] = 0          # v keeps its incoming links and has no outgoing ones
+                degd = Wd.sum(axis=0)
+                for d in (0.5, 0.85):
+                    fal = rs2.rand(m) + 0.05
+                    for fa in (None, fal):
+                        ok, r = call(REC, PROP, 'pagerank_centrality', bct.pagerank_centrality, Wd, d, falff=None if fa is None else fa.copy(),
+                                     _classes=('dangling_nodes',))
+                        if not ok:
+                            continue
+                        r = np.asarray(r, dtype=float)
+                        good = r.shape == (m,) and bool(np.all(r > 0)) and abs(r.sum() - 1) <= 1e-12
+                        REC.check(PROP, 'pagerank_centrality', 'positive_unit_sum', good, {'W': Wd, 'd': d, 'falff': fa, 'got': r, 'sum': float(np.sum(r))},
+                                  ('dangling_nodes',))
     if n <= 9:
         for fn in ('mean_first_passage_time', 'diffusion_efficiency'):
             layout_variants_agree(REC, PROP, fn, getattr(bct, fn), W, rtol=1e-7)
